@@ -577,8 +577,49 @@ class Body:
                 if a not in uniq:
                     uniq.append(a)
             t = uniq[0] if len(uniq) == 1 else ("phi", uniq)
+        t = self._with_partial_stores(l, t)
         self._terms[l] = t
         return t
+
+    def _with_partial_stores(self, l, t):
+        """a struct local that is built once and then updated field by field: every field of its value may also hold what
+        those stores put there"""
+        if l <= self.arg_count or not isinstance(t, tuple):
+            return t
+        idx = self.__dict__.get("_ps_index")
+        if idx is None:
+            self._partial_store_terms(-1, {"f": -1})   # builds the index
+            idx = self.__dict__.get("_ps_index") or {}
+        mine = [k for k in idx if k[0] == l]
+        if not mine:
+            return t
+
+        def upd(a):
+            if not (a[0] == "agg" and a[1] == "adt" and not a[3] or (a[0] == "agg" and a[1] == "adt")):
+                return a
+            ops = list(a[5])
+            names = a[4]
+            changed = False
+            adt = self.facts.adts.get(a[2])
+            for (_, fi) in mine:
+                fname = None
+                if adt and len(adt["variants"]) == 1 and fi < len(adt["variants"][0]["fields"]):
+                    fname = adt["variants"][0]["fields"][fi]["name"]
+                if fname is None or fname not in names:
+                    continue
+                k = names.index(fname)
+                extra = [self.rvalue_term(rv) for rv in idx[(l, fi)]]
+                alts = []
+                for x in [ops[k]] + extra:
+                    if x not in alts:
+                        alts.append(x)
+                if len(alts) > 1:
+                    ops[k] = ("phi", alts)
+                    changed = True
+            return (a[0], a[1], a[2], a[3], a[4], ops) if changed else a
+        if t[0] == "phi":
+            return ("phi", [upd(a) if isinstance(a, tuple) and a[0] == "agg" else a for a in t[1]])
+        return upd(t) if t[0] == "agg" else t
 
     def _closure_store_terms(self, d):
         """values a closure stores through its `&mut` capture `d[2]`, expressed in this body's terms"""
@@ -659,7 +700,21 @@ class Body:
             if len(proj) > k and isinstance(proj[k], dict) and "f" in proj[k] and proj[k].get("of") == self.name:
                 t = ("param", proj[k]["name"] or "#up%d" % proj[k]["f"])
                 start = k + 1
-        for e in proj[start:]:
+        first_field_done = False
+        for ei, e in enumerate(proj[start:]):
+            if not first_field_done and ei == 0 and start == 0 and isinstance(e, dict) and "f" in e and not e.get("variant"):
+                # `local.field` where the struct local is also updated field by field (`terms.x = ..`): those stores are
+                # definitions of the field as well
+                first_field_done = True
+                extra = self._partial_store_terms(p["l"], e)
+                if extra:
+                    base = self._field(t, e)
+                    alts = []
+                    for a in [base] + extra:
+                        if a not in alts:
+                            alts.append(a)
+                    t = alts[0] if len(alts) == 1 else ("phi", alts)
+                    continue
             if e == "deref":
                 if t[0] == "ref":
                     t = t[1]
@@ -678,6 +733,33 @@ class Body:
             elif "subslice" in e:
                 t = ("subslice", t, e["subslice"][0], e["subslice"][1], e["from_end"])
         return t
+
+    def _partial_store_terms(self, l, e):
+        """values stored by statements `_l.<field e> = rv` of this body (struct locals updated field by field)"""
+        if l < 0:
+            pass
+        elif l <= self.arg_count or (self.locals[l].get("ty") or "").startswith(("&", "*")):
+            return []
+        key = (l, e["f"])
+        guard = self.__dict__.setdefault("_ps_guard", set())
+        if key in guard:
+            return []
+        idx = self.__dict__.get("_ps_index")
+        if idx is None:
+            idx = {}
+            for (bb, j, dst, rv, s) in self.stores():
+                pr = dst["proj"]
+                if len(pr) == 1 and isinstance(pr[0], dict) and "f" in pr[0] and not pr[0].get("variant"):
+                    idx.setdefault((dst["l"], pr[0]["f"]), []).append(rv)
+            self._ps_index = idx
+        rvs = idx.get(key)
+        if not rvs:
+            return []
+        guard.add(key)
+        try:
+            return [self.rvalue_term(rv) for rv in rvs]
+        finally:
+            guard.discard(key)
 
     def _field(self, t, e):
         name = e["name"] if e["name"] is not None else str(e["f"])
